@@ -1,138 +1,56 @@
 """C11  Distributed power = regular target + operating-point target, in bounds.
 
-Abstract interpretation of PowerManagingActor._calculate_target_power over a small symbolic
-domain: each of the two Matryoshka groups has a stored target (None or a symbol) and a
-`calculate_target_power` call forks into {returns a new target, returns None = unchanged}.
-Every abstract path is checked for C11.SUM (returned power == sum of both groups' *current*
-targets) and C11.SHIFT (the second-computed group gets the system bounds shifted by the *current*
-target of the first).  _calculate_shifted_bounds is checked as a term (both inclusion bounds minus
-the same power, exclusion bounds passed through).  C11.REQ are who-may-construct / ordering rules.
+Every rule is decided by symbolic interpretation (fork-and-replay, `_c11_util.ActorInterp`) of the
+anchored methods of PowerManagingActor, so the verdict depends on what the code computes, not on
+local names, statement shapes, keyword vs positional arguments or whether a piece lives in a
+private helper (helpers are interpreted, the other anchors are recorded as opaque events):
+
+* _calculate_target_power over: proposal kind x stored target present/absent per group x each
+  `calculate_target_power` call returning {a new target, None = unchanged}.  Every abstract path
+  is checked for C11.SUM (returned power == sum of both groups' *current* targets) and C11.SHIFT
+  (the second-computed group gets the system bounds shifted by the *current* target of the first).
+* _calculate_shifted_bounds over shift None/present x inclusion/exclusion bounds None/present: both
+  inclusion bounds minus the same power (linear terms), exclusion bounds passed through.
+* C11.REQ: who may build a Request / use the requests sender (only _send_updated_target_power and
+  helpers referenced from nowhere else); _send_updated_target_power sends
+  Request(power=<result of the one _calculate_target_power call for its own arguments>, same ids)
+  iff that result is not None; _bounds_tracker has every received message in the cache when it
+  recomputes and reports; _send_reports computes regular statuses in the op-shifted bounds.
 """
 from __future__ import annotations
 
 import ast
 from typing import Any
 
-from ..engine.absint import Interp, Obj
-from ..engine.cfg import CFG
+from ..engine.absint import Obj
+from ..engine.normalize import ANCHOR_NAMES
 from ..engine.report import AnalysisError, Run
-from ..engine.resolver import Program, body_walk
-from ..engine.util import find_calls, method_call, node_has_call, node_writes, nodes_with_call, u
+from ..engine.resolver import ClassInfo, FuncInfo, Program
+from ..engine.util import u
+from ._c11_util import (REQ_SENDER_ATTR, ActorInterp, Flag, Sym, is_shift, lin_of,
+                        structural_controls)
 
 ACTOR = "microgrid._power_managing._power_managing_actor:PowerManagingActor"
-GROUP_ATTRS = {"_set_op_power_group": "op", "_set_power_group": "reg"}
+MODULE = "microgrid._power_managing._power_managing_actor"
+ANCHORS = ("_calculate_target_power", "_calculate_shifted_bounds", "_send_updated_target_power",
+           "_send_reports", "_bounds_tracker")
 
 
-class Sym:
-    def __init__(self, name: str) -> None:
-        self.name = name
-
-    def __repr__(self) -> str:
-        return self.name
+def _desc(out: Any) -> str:
+    return "; ".join(f"{lab}={d}" for lab, d in zip(out.labels, out.decisions))
 
 
-class SumV:
-    def __init__(self, parts: frozenset[str]) -> None:
-        self.parts = parts
-
-    def __repr__(self) -> str:
-        return " + ".join(sorted(self.parts))
+def _is_sb(v: Any, ids: Any) -> bool:
+    """The cached system bounds of the group (as read from self._system_bounds)."""
+    return isinstance(v, Obj) and v.cls == "SB" and v.fields.get("ids") is ids
 
 
-def parts_of(v: Any) -> frozenset[str] | None:
-    if v is None:
-        return frozenset()
-    if isinstance(v, Sym):
-        return frozenset({v.name})
-    if isinstance(v, SumV):
-        return v.parts
-    return None
-
-
-class C11Interp(Interp):
-    def __init__(self) -> None:
-        super().__init__()
-        self.stored: dict[str, Any] = {}
-        self.calls: list[dict[str, Any]] = []
-        self.fresh = 0
-
-    def reset(self) -> None:
-        self.stored = {}
-        self.calls = []
-        self.fresh = 0
-
-    def snapshot(self) -> Any:
-        return {"stored": dict(self.stored), "calls": list(self.calls)}
-
-    def get_attr(self, base: Any, attr: str, node: ast.AST) -> Any:
-        if isinstance(base, Obj) and base.cls == "self":
-            if attr in GROUP_ATTRS:
-                return Obj("Group", name=GROUP_ATTRS[attr])
-            if attr == "_system_bounds":
-                return Obj("BoundsCache")
-            if attr == "_calculate_shifted_bounds":
-                return ("builtin", "shift")
-            raise AnalysisError(f"self.{attr} not modelled in the C11 domain")
-        if isinstance(base, Obj) and base.cls == "Proposal" and attr == "set_operating_point":
-            return base.fields["set_operating_point"]
-        return super().get_attr(base, attr, node)
-
-    def obj_method(self, base: Obj, attr: str, node: ast.AST) -> Any:
-        if base.cls == "Group" and attr in ("calculate_target_power", "get_target_power"):
-            return ("builtin", attr, base.fields["name"])
-        if base.cls == "BoundsCache" and attr == "get":
-            return ("builtin", "sb")
-        raise AnalysisError(f"method {base.cls}.{attr} not modelled in the C11 domain")
-
-    def get_item(self, base: Any, key: Any, node: ast.AST) -> Any:
-        if isinstance(base, Obj) and base.cls == "BoundsCache":
-            return Obj("SB", ids=key)
-        return super().get_item(base, key, node)
-
-    def apply(self, fn: Any, pos: list[Any], kw: dict[str, Any], node: ast.AST) -> Any:
-        if isinstance(fn, tuple) and fn[0] == "builtin" and fn[1] == "calculate_target_power":
-            group = fn[2]
-            if len(pos) < 3:
-                raise AnalysisError("calculate_target_power call shape not recognised")
-            before = self.stored.get(group)
-            changed = self.choose(2, f"{group}.calculate_target_power returns new target") == 1
-            if changed:
-                self.fresh += 1
-                val: Any = Sym(f"T_{group}_new{self.fresh}")
-                self.stored[group] = val
-            else:
-                val = None  # unchanged (or no proposals at all): stored target stays as it was
-            self.calls.append({"group": group, "proposal": pos[1], "bounds": pos[2],
-                               "result": val, "stored_before": before, "node": node,
-                               "stored_all_before": dict(self.stored) if not changed else
-                               {**self.stored, group: before}})
-            return val
-        if isinstance(fn, tuple) and fn[0] == "builtin" and fn[1] == "get_target_power":
-            return self.stored.get(fn[2])
-        if isinstance(fn, tuple) and fn[0] == "builtin" and fn[1] == "shift":
-            return Obj("Shifted", base=pos[0], by=pos[1])
-        return super().apply(fn, pos, kw, node)
-
-    def binop(self, op: ast.operator, a: Any, b: Any, node: ast.AST) -> Any:
-        pa, pb = parts_of(a), parts_of(b)
-        if isinstance(op, ast.Add) and pa is not None and pb is not None and a is not None \
-                and b is not None:
-            if pa & pb:
-                return SumV(frozenset(pa | pb | {"<duplicate:" + ",".join(sorted(pa & pb)) + ">"}))
-            return SumV(pa | pb)
-        raise AnalysisError("operator on target powers not modelled (only `+` of two targets)")
-
-    def truth_of(self, v: Any, node: ast.AST | None) -> bool:
-        if isinstance(v, (Sym, SumV, Obj)):
-            return True  # Quantity defines no __bool__/__len__: truthiness is a None test
-        return super().truth_of(v, node)
-
-
+# =============================================================================== C11.SUM / SHIFT
 def check_calc(run: Run, prog: Program) -> None:
+    cls = prog.cls(ACTOR)
     fn = prog.func(f"{ACTOR}._calculate_target_power")
     run.analysed(fn.qual)
-    interp = C11Interp()
-    scen = {"n": 0}
+    interp = ActorInterp(prog, cls, opaque=[a for a in ANCHORS if a != "_calculate_target_power"])
 
     def make_args() -> dict[str, Any]:
         kind = interp.choose(3, "proposal kind")  # 0: None, 1: regular, 2: operating point
@@ -141,22 +59,25 @@ def check_calc(run: Run, prog: Program) -> None:
         for g in ("op", "reg"):
             if interp.choose(2, f"stored {g} target exists") == 1:
                 interp.stored[g] = Sym(f"T_{g}_old")
-        scen["n"] += 1
-        return {"self": Obj("self"), "component_ids": Sym("ids"), "proposal": proposal,
-                "must_send": Sym("must_send")}
+        interp.ids = Sym("ids")
+        interp.inputs = {"ids": interp.ids}
+        # parameters are bound by position: (component ids, proposal, must-send flag)
+        return interp.bind_args(fn.node, [interp.ids, proposal, Flag("must_send")], {},
+                                self_value=interp.self_obj())
 
     outs = interp.explore(fn.node, make_args)
     if len(outs) < 24:
         raise AnalysisError(f"{fn.qual}: only {len(outs)} abstract paths explored")
     n_changed = 0
     for out in outs:
-        desc = "; ".join(f"{lab}={d}" for lab, d in zip(out.labels, out.decisions))
+        desc = _desc(out)
         if out.kind != "return":
             run.violation("C11.SUM", fn.qual, "raise", f"path raises {out.value}: {desc}",
-                          node=fn.node, file=fn.file)
+                          node=out.raise_node or fn.node, file=fn.file)
             continue
         st = out.state
-        stored, calls = st["stored"], st["calls"]
+        stored = st["stored"]
+        calls = [e for e in st["events"] if e["kind"] == "recalc"]
         groups_called = [c["group"] for c in calls]
         run.check(sorted(groups_called) == ["op", "reg"], "C11.SUM", fn.qual,
                   "both groups recalculated exactly once",
@@ -168,28 +89,30 @@ def check_calc(run: Run, prog: Program) -> None:
         for c in calls:
             p = c["proposal"]
             if p is not None:
+                if not (isinstance(p, Obj) and p.cls == "Proposal"):
+                    raise AnalysisError(f"{fn.qual}: proposal argument {p!r} not recognised")
                 want = "op" if p.fields["set_operating_point"] else "reg"
                 run.check(c["group"] == want, "C11.SUM", fn.qual, c["node"],
                           f"a {'operating-point' if want == 'op' else 'regular'} proposal is "
                           f"handed to the {c['group']} group", node=c["node"], file=fn.file,
                           instance=f"proposal routed to {want} group: {desc}")
         any_new = any(c["result"] is not None for c in calls)
-        expected = frozenset(v.name for v in stored.values() if v is not None)
-        got = parts_of(out.value)
+        expected = {v.name: 1 for v in stored.values() if v is not None}
+        got = lin_of(out.value)
+        ret_node = st["ret_node"] if st["ret_node"] is not None else fn.node
         if got is None:
             run.violation("C11.SUM", fn.qual, "return", f"unrecognised return value {out.value!r}",
-                          node=fn.node, file=fn.file)
+                          node=ret_node, file=fn.file)
             continue
         if any_new:
             n_changed += 1
             ok = got == expected
-            ret_node = _return_for(fn, out.value)
             run.check(ok, "C11.SUM", fn.qual, ret_node,
                       f"a group's target changed but the returned power is `{out.value}` while the "
                       f"targets currently reported are {{{', '.join(sorted(expected))}}} — "
                       "`None` from calculate_target_power means *unchanged*, the stored target "
                       f"still applies and must be part of the request. Path: {desc}",
-                      node=ret_node if isinstance(ret_node, ast.AST) else fn.node, file=fn.file,
+                      node=ret_node, file=fn.file,
                       instance=f"request = sum of current targets: {desc}")
         else:
             ok = out.value is None or got == expected
@@ -200,16 +123,16 @@ def check_calc(run: Run, prog: Program) -> None:
         # *current* target
         first, second = calls
         cur_first = stored_after(first)
+        ids = st["inputs"].get("ids")
         b2 = second["bounds"]
         ok = False
         why = ""
-        if isinstance(b2, Obj) and b2.cls == "Shifted" and isinstance(b2.fields["base"], Obj) \
-                and b2.fields["base"].cls == "SB":
+        if is_shift(b2) and _is_sb(b2.fields["base"], ids):
             by = b2.fields["by"]
             ok = (by is cur_first) or (by is None and cur_first is None)
             why = (f"shift is `{by}` but the {first['group']} group's current target is "
                    f"`{cur_first}`")
-        elif isinstance(b2, Obj) and b2.cls == "SB":
+        elif _is_sb(b2, ids):
             ok = cur_first is None
             why = f"unshifted system bounds although the {first['group']} target is `{cur_first}`"
         else:
@@ -220,8 +143,7 @@ def check_calc(run: Run, prog: Program) -> None:
                   f"system bounds). Path: {desc}", node=second["node"], file=fn.file,
                   instance=f"second group bounds shifted by first group's current target: {desc}")
         b1 = first["bounds"]
-        ok1 = isinstance(b1, Obj) and (b1.cls == "SB" or (
-            b1.cls == "Shifted" and isinstance(b1.fields["base"], Obj) and b1.fields["base"].cls == "SB"))
+        ok1 = _is_sb(b1, ids) or (is_shift(b1) and _is_sb(b1.fields["base"], ids))
         run.check(ok1, "C11.SHIFT", fn.qual, first["node"],
                   "the first recalculation does not use the cached system bounds of the group",
                   node=first["node"], file=fn.file,
@@ -236,151 +158,331 @@ def stored_after(call: dict[str, Any]) -> Any:
     return call["result"] if call["result"] is not None else call["stored_before"]
 
 
-def _return_for(fn: Any, value: Any) -> Any:
-    """The return statement producing a value of this shape (for stable finding keys)."""
-    rets = [n for n in body_walk(fn.node) if isinstance(n, ast.Return) and n.value is not None]
-    if isinstance(value, SumV):
-        for r in rets:
-            if isinstance(r.value, ast.BinOp):
-                return r
-    if isinstance(value, Sym) or value is None:
-        names = [r for r in rets if isinstance(r.value, ast.Name)]
-        if isinstance(value, Sym):
-            for r in names:
-                if ("no_shift" in r.value.id) == ("reg" in value.name):
-                    return r
-        if names:
-            return names[-1]
-    return rets[-1] if rets else "return"
-
-
 def check_shift_fn(run: Run, prog: Program) -> None:
+    """_calculate_shifted_bounds evaluated symbolically: (None shift -> same bounds), both
+    inclusion bounds minus the same power, exclusion bounds passed through."""
+    cls = prog.cls(ACTOR)
     fn = prog.func(f"{ACTOR}._calculate_shifted_bounds")
     run.analysed(fn.qual)
-    b, p = fn.params[1], fn.params[2]
-    # None shift -> bounds unchanged
-    ok_none = False
-    for s in fn.node.body:
-        if isinstance(s, ast.If) and u(s.test) in (f"{p} is None", f"not {p}"):
-            ok_none = len(s.body) == 1 and isinstance(s.body[0], ast.Return) and u(s.body[0].value) == b
-    run.check(ok_none, "C11.SHIFT", fn.qual, f"if {p} is None: return {b}",
+    interp = ActorInterp(prog, cls, opaque=[a for a in ANCHORS if a != "_calculate_shifted_bounds"])
+
+    def make_args() -> dict[str, Any]:
+        op = Sym("op_power") if interp.choose(2, "shift power is None") == 0 else None
+        incl = Obj("Bounds", lower=Sym("lower"), upper=Sym("upper")) \
+            if interp.choose(2, "inclusion bounds are None") == 0 else None
+        excl = Obj("Bounds", lower=Sym("x_lower"), upper=Sym("x_upper")) \
+            if interp.choose(2, "exclusion bounds are None") == 0 else None
+        b = Obj("SystemBounds", timestamp=Sym("timestamp"), inclusion_bounds=incl, exclusion_bounds=excl)
+        interp.inputs = {"bounds": b, "op": op}
+        return interp.bind_args(fn.node, [b, op], {}, self_value=interp.self_obj())
+
+    outs = interp.explore(fn.node, make_args)
+    if len(outs) < 8:
+        raise AnalysisError(f"{fn.qual}: only {len(outs)} abstract paths explored")
+    ok_none, ok_incl, ok_sb = True, True, True
+    got_incl = ""
+    for out in outs:
+        b, op = out.state["inputs"]["bounds"], out.state["inputs"]["op"]
+        incl, excl = b.fields["inclusion_bounds"], b.fields["exclusion_bounds"]
+        r = out.value
+        if out.kind != "return":
+            ok_none = ok_incl = ok_sb = False
+            got_incl = f"raises {out.value}"
+            continue
+        if op is None:
+            same = r is b or (isinstance(r, Obj) and r.cls == "SystemBounds"
+                              and r.fields.get("inclusion_bounds") is incl
+                              and r.fields.get("exclusion_bounds") is excl)
+            ok_none = ok_none and same
+            continue
+        if not (isinstance(r, Obj) and r.cls == "SystemBounds" and r is not b):
+            ok_sb = False
+            continue
+        ok_sb = ok_sb and r.fields.get("exclusion_bounds") is excl
+        ri = r.fields.get("inclusion_bounds")
+        if incl is None:
+            ok_sb = ok_sb and ri is None
+            continue
+        if not (isinstance(ri, Obj) and ri.cls == "Bounds"):
+            ok_sb = False
+            continue
+        lo, hi = lin_of(ri.fields.get("lower")), lin_of(ri.fields.get("upper"))
+        if lo != {"lower": 1, "op_power": -1} or hi != {"upper": 1, "op_power": -1}:
+            ok_incl = False
+            got_incl = f"lower=`{ri.fields.get('lower')}`, upper=`{ri.fields.get('upper')}`"
+    run.check(ok_none, "C11.SHIFT", fn.qual, "shift power is None: bounds returned unchanged",
               "a missing operating-point power does not leave the bounds unchanged",
               node=fn.node, file=fn.file)
-    calls = find_calls(fn.node, lambda c: u(c.func) in ("Bounds", "timeseries.Bounds"))
-    ok = len(calls) == 1
-    detail = "expected one Bounds(lower - op, upper - op) construction"
-    if ok:
-        c = calls[0]
-        args = {k.arg: k.value for k in c.keywords}
-        if len(c.args) >= 1:
-            args.setdefault("lower", c.args[0])
-        if len(c.args) >= 2:
-            args.setdefault("upper", c.args[1])
-        want_l = f"{b}.inclusion_bounds.lower - {p}"
-        want_u = f"{b}.inclusion_bounds.upper - {p}"
-        ok = u(args.get("lower")) == want_l and u(args.get("upper")) == want_u
-        detail = (f"inclusion bounds must both be shifted by -{p}: got lower=`{u(args.get('lower'))}`"
-                  f", upper=`{u(args.get('upper'))}`")
-    run.check(ok, "C11.SHIFT", fn.qual, "Bounds(lower - op_power, upper - op_power)", detail,
+    run.check(ok_incl, "C11.SHIFT", fn.qual, "Bounds(lower - op_power, upper - op_power)",
+              f"inclusion bounds must both be shifted by -op_power: got {got_incl}",
               node=fn.node, file=fn.file)
-    sb = find_calls(fn.node, lambda c: u(c.func) == "SystemBounds")
-    ok = len(sb) == 1
-    if ok:
-        kws = {k.arg: u(k.value) for k in sb[0].keywords}
-        ok = kws.get("exclusion_bounds") == f"{b}.exclusion_bounds" and \
-            kws.get("inclusion_bounds") == "inclusion_bounds"
-    run.check(ok, "C11.SHIFT", fn.qual, "SystemBounds(inclusion shifted, exclusion passed through)",
+    run.check(ok_sb, "C11.SHIFT", fn.qual, "SystemBounds(inclusion shifted, exclusion passed through)",
               "shifted SystemBounds does not carry the shifted inclusion bounds and the unchanged "
               "exclusion bounds", node=fn.node, file=fn.file)
 
 
+# =============================================================================== C11.REQ
+def _owner_refs(prog: Program, names: set[str]) -> dict[str, set[tuple[str, str]]]:
+    """For each attribute/function name: the (class qual | module, top-level function) units that
+    mention it anywhere in the package."""
+    refs: dict[str, set[tuple[str, str]]] = {n: set() for n in names}
+
+    def scan(owner: tuple[str, str], node: ast.AST) -> None:
+        for n in ast.walk(node):
+            if isinstance(n, ast.Attribute) and n.attr in names:
+                refs[n.attr].add(owner)
+            elif isinstance(n, ast.Name) and n.id in names:
+                refs[n.id].add(owner)
+            elif isinstance(n, ast.Constant) and isinstance(n.value, str) and n.value in names:
+                refs[n.value].add(("<string>", ""))  # getattr(self, "...")
+
+    for mod in prog.modules.values():
+        for top in mod.tree.body:
+            if isinstance(top, ast.ClassDef):
+                for sub in top.body:
+                    if isinstance(sub, (ast.FunctionDef, ast.AsyncFunctionDef)):
+                        scan((f"{mod.name}:{top.name}", sub.name), sub)
+                    else:
+                        scan((f"{mod.name}:{top.name}", "<class body>"), sub)
+            elif isinstance(top, (ast.FunctionDef, ast.AsyncFunctionDef)):
+                scan((mod.name, top.name), top)
+            else:
+                scan((mod.name, "<module body>"), top)
+    return refs
+
+
+def exclusive_helpers(prog: Program, cls: ClassInfo, root: FuncInfo) -> set[str]:
+    """`root` plus the private, non-anchor methods of the class that are referenced only from
+    `root` or from other such helpers (i.e. code that runs only as part of `root`)."""
+    cands = {m.name for m in cls.methods.values() if m.name.startswith("_")
+             and not m.name.startswith("__") and m.name not in ANCHOR_NAMES}
+    if not cands:
+        return {root.name}
+    refs = _owner_refs(prog, cands)
+    allowed = {root.name}
+    changed = True
+    while changed:
+        changed = False
+        for name in sorted(cands - allowed):
+            who = refs[name]
+            if who and all(c == cls.qual and f in allowed for c, f in who):
+                allowed.add(name)
+                changed = True
+    return allowed
+
+
 def check_req(run: Run, prog: Program) -> None:
     cls = prog.cls(ACTOR)
-    # who may construct a Request / send on the requests sender
+    su = prog.func(f"{ACTOR}._send_updated_target_power")
+    # ---- who may construct a Request / touch the requests sender: _send_updated_target_power and
+    #      helpers that run only as part of it
+    allowed: set[str] | None = None
     n_req = 0
     for m in cls.methods.values():
-        for call in find_calls(m.node, lambda c: u(c.func).endswith("Request")):
-            n_req += 1
-            kws = {k.arg: u(k.value) for k in call.keywords}
-            ok = m.name == "_send_updated_target_power" and kws.get("power") == "target_power" \
-                and kws.get("component_ids") == "component_ids"
-            run.check(ok, "C11.REQ", m.qual, call,
-                      "a Request is built outside _send_updated_target_power or not from the "
-                      "computed target power / the same component ids", node=call, file=m.file)
-        for call in find_calls(m.node, lambda c: method_call(
-                c, "self._power_distributing_requests_sender", "send")):
-            run.check(m.name == "_send_updated_target_power", "C11.REQ", m.qual, call,
-                      "requests are sent outside _send_updated_target_power", node=call, file=m.file)
+        sites: list[tuple[str, ast.AST]] = []
+        for n in ast.walk(m.node):
+            if isinstance(n, ast.Call) and u(n.func).endswith("Request"):
+                n_req += 1
+                sites.append(("a Request is built", n))
+            elif isinstance(n, ast.Attribute) and n.attr == REQ_SENDER_ATTR and isinstance(n.ctx, ast.Load):
+                sites.append(("the requests sender is used", n))
+        for what, n in sites:
+            if m.name != su.name and allowed is None:
+                allowed = exclusive_helpers(prog, cls, su)
+            ok = m.name == su.name or m.name in (allowed or ())
+            construct = _enclosing_call(m.node, n)
+            run.check(ok, "C11.REQ", m.qual, construct,
+                      f"{what} outside _send_updated_target_power: requests must be built only "
+                      "from the freshly computed target power", node=n, file=m.file)
     if n_req != 1:
         raise AnalysisError(f"C11.REQ: expected one Request construction, found {n_req}")
-    su = prog.func(f"{ACTOR}._send_updated_target_power")
+    check_send_updated(run, prog, cls, su)
+    check_bounds_tracker(run, prog, cls)
+    check_reports(run, prog, cls)
+
+
+def _enclosing_call(fn: ast.AST, n: ast.AST) -> ast.AST:
+    """`self.<sender>.send(...)` for a sender reference (stable finding key), else the node."""
+    if isinstance(n, ast.Call):
+        return n
+    for c in ast.walk(fn):
+        if isinstance(c, ast.Call) and isinstance(c.func, ast.Attribute) and c.func.value is n:
+            return c
+    return n
+
+
+def check_send_updated(run: Run, prog: Program, cls: ClassInfo, su: FuncInfo) -> None:
+    """Symbolic run of _send_updated_target_power: the target is computed once for the very
+    arguments of the call; a Request(power=<that result>, component_ids=<same ids>) is sent iff the
+    result is not None."""
     run.analysed(su.qual)
-    cfg = CFG(su.node, su.file)
-    defs = [n for n in cfg.nodes if isinstance(n.ast, ast.Assign) and u(n.ast.targets[0]) == "target_power"]
-    ok = len(defs) == 1 and isinstance(defs[0].ast.value, ast.Call) and method_call(  # type: ignore[union-attr]
-        defs[0].ast.value, "self", "_calculate_target_power")  # type: ignore[union-attr]
-    if ok:
-        call = defs[0].ast.value  # type: ignore[union-attr]
-        ok = [u(a) for a in call.args] == su.params[1:4]
-    run.check(ok, "C11.REQ", su.qual, "target_power = self._calculate_target_power(component_ids, "
-              "proposal, must_send)", "the sent power does not come from _calculate_target_power "
-              "for the same group/proposal", node=su.node, file=su.file)
-    sends = nodes_with_call(cfg, lambda c: method_call(c, "self._power_distributing_requests_sender", "send"))
-    guards = [t for t in cfg.nodes if t.kind == "test" and u(t.ast) in (
-        "target_power is not None", "target_power is None")]
-    ok = bool(sends) and len(guards) == 1
-    if ok:
-        g = guards[0]
-        lab = "true" if "is not" in g.label else "false"
-        ok = [m for m, l in cfg.succ[g.id] if l == lab] == sends[:1] and \
-            cfg.path(cfg.entry, sends, avoid=[g.id]) is None
-    run.check(ok, "C11.REQ", su.qual, "send iff target_power is not None",
-              "a request is not sent exactly when a target power was returned", node=su.node,
-              file=su.file)
-    # bounds tracker: store first, then recompute, then report
+    interp = ActorInterp(prog, cls, opaque=[a for a in ANCHORS if a != su.name])
+
+    def make_args() -> dict[str, Any]:
+        interp.ids = Sym("ids")
+        proposal = None if interp.choose(2, "a proposal is given") == 0 else \
+            Obj("Proposal", set_operating_point=Flag("set_operating_point"))
+        must = Flag("must_send")
+        interp.inputs = {"ids": interp.ids, "proposal": proposal, "must_send": must}
+        return interp.bind_args(su.node, [interp.ids, proposal, must], {}, self_value=interp.self_obj())
+
+    outs = interp.explore(su.node, make_args)
+    n_sent = 0
+    for out in outs:
+        desc = _desc(out)
+        if out.kind != "return":
+            run.violation("C11.REQ", su.qual, "raise", f"path raises {out.value}: {desc}",
+                          node=out.raise_node or su.node, file=su.file)
+            continue
+        inp = out.state["inputs"]
+        evs = out.state["events"]
+        calcs = [e for e in evs if e["kind"] == "_calculate_target_power"]
+        ok = len(calcs) == 1 and len(calcs[0]["args"]) >= 3 and calcs[0]["args"][0] is inp["ids"] \
+            and calcs[0]["args"][1] is inp["proposal"] and calcs[0]["args"][2] is inp["must_send"]
+        run.check(ok, "C11.REQ", su.qual, "target_power = self._calculate_target_power(component_ids, "
+                  "proposal, must_send)", "the sent power does not come from one _calculate_target_power "
+                  f"call for the same group/proposal/must_send ({desc})", node=su.node, file=su.file,
+                  instance=f"target computed once from the call's own arguments: {desc}")
+        if not ok:
+            continue
+        result = calcs[0]["result"]
+        reqs = [e for e in evs if e["kind"] == "request"]
+        if result is None:
+            ok = not reqs
+        else:
+            n_sent += 1
+            ok = len(reqs) == 1 and evs.index(reqs[0]) > evs.index(calcs[0])
+        run.check(ok, "C11.REQ", su.qual, "send iff target_power is not None",
+                  f"a request is not sent exactly when a target power was returned ({len(reqs)} "
+                  f"request(s) sent, computed target `{result}`; {desc})",
+                  node=reqs[0]["node"] if reqs else su.node, file=su.file,
+                  instance=f"request sent iff a target was returned: {desc}")
+        for e in reqs:
+            r = e["value"]
+            ok = isinstance(r, Obj) and r.cls == "Request" and result is not None \
+                and r.fields.get("power") is result and r.fields.get("component_ids") is inp["ids"]
+            run.check(ok, "C11.REQ", su.qual, "Request(power=target_power, component_ids=component_ids)",
+                      f"the request sent is `{r!r}`: not built from the computed target power / the "
+                      f"same component ids ({desc})", node=e["node"], file=su.file,
+                      instance=f"request carries the computed power for the same ids: {desc}")
+    if n_sent < 1 or len(outs) < 2:
+        raise AnalysisError(f"{su.qual}: no abstract path sends a request")
+
+
+def check_bounds_tracker(run: Run, prog: Program, cls: ClassInfo) -> None:
+    """Every received bounds message is in the cache when the target is recomputed for that group
+    and when the reports are sent; recomputation precedes the reports."""
     bt = prog.func(f"{ACTOR}._bounds_tracker")
     run.analysed(bt.qual)
-    cfg = CFG(bt.node, bt.file)
-    stores = [n.id for n in cfg.nodes if n.kind == "stmt" and any(
-        u(w) == "self._system_bounds[component_ids]" for w in node_writes(cfg, n.id))]
-    sends = nodes_with_call(cfg, lambda c: method_call(c, "self", "_send_updated_target_power"))
-    reports = nodes_with_call(cfg, lambda c: method_call(c, "self", "_send_reports"))
-    loops = [n for n in cfg.nodes if n.kind == "for"]
-    ok = bool(stores) and bool(sends) and bool(reports) and len(loops) == 1
-    wit = None
-    if ok:
-        h = loops[0]
-        body = [m for m, lab in cfg.succ[h.id] if lab == "iter"]
-        wit = cfg.path(body[0], sends, avoid=stores) if body[0] not in stores else None
-        ok = wit is None
-        s = cfg.nodes[stores[0]].ast
-        ok = ok and isinstance(s, ast.Assign) and u(s.value) == u(h.ast.target)  # type: ignore[union-attr]
-        if ok:
-            # every iteration reaches the recomputation before the next message
-            w2 = cfg.path(stores[0], [h.id], avoid=sends, edge_ok=lambda a, b, lab: not lab.startswith("exc:"))
-            ok = w2 is None
-            wit = w2
-            c = [x for x in find_calls(cfg.nodes[sends[0]].ast, lambda c: method_call(  # type: ignore[arg-type]
-                c, "self", "_send_updated_target_power"))][0]
-            ok = ok and [u(a) for a in c.args][:1] == ["component_ids"]
-    run.check(ok, "C11.REQ", bt.qual, "store new bounds, then _send_updated_target_power, then reports",
-              "new system bounds are not stored before the target power is recomputed for that "
-              "group (the request would be clamped to stale bounds)", node=bt.node, file=bt.file,
-              path=cfg.describe_path(wit))
-    # reports: regular group sees bounds shifted by the op group's current target
+    interp = ActorInterp(prog, cls, opaque=[a for a in ANCHORS if a != bt.name])
+
+    def make_args() -> dict[str, Any]:
+        interp.ids = Sym("ids")
+        interp.inputs = {"ids": interp.ids}
+        return interp.bind_args(bt.node, [interp.ids, Obj("Receiver")], {}, self_value=interp.self_obj())
+
+    outs = interp.explore(bt.node, make_args)
+    construct = "store new bounds, then _send_updated_target_power, then reports"
+    for out in outs:
+        desc = _desc(out)
+        ids = out.state["inputs"]["ids"]
+        evs = out.state["events"]
+        segs: list[list[dict[str, Any]]] = []
+        for e in evs:
+            if e["kind"] == "recv":
+                segs.append([e])
+            elif segs:
+                segs[-1].append(e)
+            elif e["kind"] in ("store", "_send_updated_target_power"):
+                segs.append([{"kind": "recv", "value": None}, e])
+        if out.kind != "return" or len(segs) < interp.n_messages:
+            run.violation("C11.REQ", bt.qual, construct,
+                          f"the tracker does not process every bounds message ({out.kind} {out.value}; {desc})",
+                          node=bt.node, file=bt.file)
+            continue
+        for seg in segs:
+            msg = seg[0]["value"]
+            ups = [e for e in seg if e["kind"] == "_send_updated_target_power"]
+            reps = [e for e in seg if e["kind"] == "_send_reports"]
+            why = ""
+            if not ups:
+                why = "the target power is not recomputed after a bounds message"
+            elif not reps:
+                why = "no reports are sent after a bounds message"
+            elif any(not e["args"] or e["args"][0] is not ids for e in ups + reps):
+                why = "recomputation / reports are for another component group"
+            elif any(e["cache"].get(ids) is not msg for e in ups):
+                why = ("new system bounds are not stored before the target power is recomputed for "
+                       "that group (the request would be clamped to stale bounds)")
+            elif any(e["cache"].get(ids) is not msg for e in reps):
+                why = "reports are sent before the new system bounds are stored"
+            elif seg.index(reps[-1]) < seg.index(ups[-1]):
+                why = "the reports are sent before the target power is recomputed"
+            bad = next((e for e in ups + reps if why and "node" in e), None)
+            run.check(not why, "C11.REQ", bt.qual, construct, f"{why} ({desc})",
+                      node=bad["node"] if bad else bt.node, file=bt.file,
+                      instance=f"message {msg!r}: stored before recomputation before reports: {desc}")
+
+
+def check_reports(run: Run, prog: Program, cls: ClassInfo) -> None:
+    """Symbolic run of _send_reports: operating-point subscribers get a status computed in the
+    cached system bounds, regular subscribers in those bounds shifted by the operating-point
+    group's current target."""
     sr = prog.func(f"{ACTOR}._send_reports")
     run.analysed(sr.qual)
-    st_calls = find_calls(sr.node, lambda c: isinstance(c.func, ast.Attribute) and c.func.attr == "get_status")
-    seen = {}
-    for c in st_calls:
-        grp = u(c.func.value)  # type: ignore[union-attr]
-        seen[grp] = u(c.args[2]) if len(c.args) > 2 else None
-    ok = seen.get("self._set_op_power_group") == "bounds" and (seen.get("self._set_power_group") or "") \
-        .replace(" ", "") == ("self._calculate_shifted_bounds(bounds,self._set_op_power_group."
-                              "get_target_power(component_ids))")
-    run.check(ok, "C11.REQ", sr.qual, "regular reports use bounds shifted by the operating-point target",
-              f"reports are computed against {seen}: what regular actors are told no longer "
-              "matches the bounds their target is computed in", node=sr.node, file=sr.file)
+    interp = ActorInterp(prog, cls, opaque=[a for a in ANCHORS if a != sr.name])
+
+    def make_args() -> dict[str, Any]:
+        interp.ids = Sym("ids")
+        for g in ("op", "reg"):
+            if interp.choose(2, f"stored {g} target exists") == 1:
+                interp.stored[g] = Sym(f"T_{g}")
+        interp.inputs = {"ids": interp.ids}
+        return interp.bind_args(sr.node, [interp.ids], {}, self_value=interp.self_obj())
+
+    outs = interp.explore(sr.node, make_args)
+    construct = "regular reports use bounds shifted by the operating-point target"
+    seen = {"op": 0, "reg": 0}
+    for out in outs:
+        desc = _desc(out)
+        if out.kind != "return":
+            run.violation("C11.REQ", sr.qual, "raise", f"path raises {out.value}: {desc}",
+                          node=out.raise_node or sr.node, file=sr.file)
+            continue
+        ids = out.state["inputs"]["ids"]
+        op_now = out.state["stored"].get("op")
+        for e in out.state["events"]:
+            if e["kind"] != "status":
+                continue
+            b = e["bounds"]
+            seen[e["group"]] += 1
+            unshifted = _is_sb(b, ids) or (is_shift(b) and _is_sb(b.fields["base"], ids)
+                                           and b.fields["by"] is None)
+            if e["group"] == "op":
+                ok = unshifted
+                why = f"operating-point reports are computed against `{b!r}`, not the system bounds"
+            else:
+                ok = (is_shift(b) and _is_sb(b.fields["base"], ids) and b.fields["by"] is op_now) \
+                    or (op_now is None and unshifted)
+                why = (f"regular reports are computed against `{b!r}` while the operating-point target "
+                       f"is `{op_now}`: what regular actors are told no longer matches the bounds "
+                       "their target is computed in")
+            run.check(ok, "C11.REQ", sr.qual, construct, f"{why} ({desc})", node=e["node"],
+                      file=sr.file, instance=f"{e['group']} status bounds: {desc}")
+        # subscribers present and bounds cached -> a status is produced for them
+        labels = dict(zip(out.labels, out.decisions))
+        if labels.get("no system bounds cached yet") == 0:
+            for g in ("op", "reg"):
+                if labels.get(f"no {g} subscribers") == 0:
+                    n = sum(1 for e in out.state["events"] if e["kind"] == "status" and e["group"] == g)
+                    m = sum(1 for e in out.state["events"] if e["kind"] == "report"
+                            and isinstance(e["value"], Obj) and e["value"].cls == "Report"
+                            and e["value"].fields["group"] == g)
+                    run.check(n >= 1 and m >= 1, "C11.REQ", sr.qual, f"{g} subscribers get a status",
+                              f"{g} subscribers exist and bounds are cached but no status is sent ({desc})",
+                              node=sr.node, file=sr.file, instance=f"{g} subscribers get a status: {desc}")
+    if not seen["op"] or not seen["reg"]:
+        raise AnalysisError(f"{sr.qual}: get_status of both groups not reached ({seen})")
 
 
 CONTROLS = [
@@ -419,7 +521,8 @@ def check(run: Run, prog: Program, tier: str) -> str:
     run.floor("C11.REQ", 6)
     from ..engine.controls import run_controls
 
-    run_controls(run, CONTROLS, run_rules, tier)
+    # the controls are located by structure in the analysed tree (textual patches as fallback)
+    run_controls(run, structural_controls(prog, ACTOR, MODULE, CONTROLS), run_rules, tier)
     run.assume("Matryoshka.calculate_target_power returns None only for 'unchanged' or 'no proposals "
                "/ no bounds' and otherwise stores and returns the new target (read from "
                "_matryoshka.py; re-checked structurally under C03.PURE)")
@@ -430,5 +533,7 @@ def check(run: Run, prog: Program, tier: str) -> str:
     return ("Abstract interpretation (fork-and-replay) of _calculate_target_power over: proposal "
             "kind (none/regular/operating-point) x stored target present/absent per group x each "
             "group's recalculation returning new/unchanged; every abstract path is checked for "
-            "the sum and shift rules. Plus term/shape rules on _calculate_shifted_bounds and "
-            "who-may-construct/ordering rules for requests, bounds tracker and reports.")
+            "the sum and shift rules. _calculate_shifted_bounds, _send_updated_target_power, "
+            "_bounds_tracker and _send_reports are interpreted in the same symbolic domain "
+            "(private helpers followed, values bound by dataflow); who-may-construct rule for "
+            "Request / the requests sender over the whole class.")
